@@ -66,6 +66,29 @@ theorem one_line_per_response (c : Cfg) (e : Env) (existing : List (FName × Byt
       ((life c e existing ops lb).log.filter (fun en => wantsCdx en.record)).length := by
   rw [(cdx_range_is_record c e existing ops lb).2 hc]; simp
 
+/-- **cdx_file_started_over** — a life WITHOUT `appending` on a prefix that was used before:
+whatever `PREFIX.cdx` held (`old`), afterwards it is the header line followed by exactly the
+lines of the response records this life logged — no line of the earlier life survives the
+archive being started over.  (With `appending` the old lines are kept in front, and the header
+is written only if there was no file.) -/
+theorem cdx_file_started_over (c : Cfg) (e : Env) (existing : List (FName × Bytes)) (ops : List Op) (lb : Option Bytes)
+    (old : Option (List Str)) (hc : c.cdx = true) (ha : c.appending = false) :
+    cdxFile c old (life c e existing ops lb) =
+      cdxHeader :: ((life c e existing ops lb).log.filter (fun en => wantsCdx en.record)).map
+        (fun en => cdxLine c e en.file en.record en.size en.offset) := by
+  unfold cdxFile cdxHeaderWritten
+  rw [(cdx_range_is_record c e existing ops lb).2 hc]
+  simp [hc, ha]
+
+theorem cdx_file_appended (c : Cfg) (e : Env) (existing : List (FName × Bytes)) (ops : List Op) (lb : Option Bytes)
+    (old : List Str) (hc : c.cdx = true) (ha : c.appending = true) :
+    cdxFile c (some old) (life c e existing ops lb) =
+      old ++ ((life c e existing ops lb).log.filter (fun en => wantsCdx en.record)).map
+        (fun en => cdxLine c e en.file en.record en.size en.offset) := by
+  unfold cdxFile cdxHeaderWritten
+  rw [(cdx_range_is_record c e existing ops lb).2 hc]
+  simp [hc, ha]
+
 /-- **fields_match_record** — the columns of a CDX line are the record's own fields: URL,
 timestamp of its WARC-Date, MIME and status read from its block, its payload digest without
 the `sha1:` label, the size and offset of the write, the current file's name, its record id. -/
